@@ -150,8 +150,21 @@ pub fn run(ctx: &Ctx) -> Report {
     let mut d = ctx.new_driver();
     let n = if ctx.thorough() { 200_000 } else { 20_000 };
     for i in 0..n {
-        let la = rng.below(41);
-        let a = rng.any_bytes(la);
+        // one pair in ten is LONG: 200..600 bytes, first difference (if any) deep inside, runs of 0xff
+        let la = if i % 10 == 9 { rng.range(200, 600) } else { rng.below(41) };
+        let a = if i % 10 == 9 {
+            let mut a = rng.bytes(la, &[0x61, 0x62, 0x00, 0xfe, 0xff, 0xff]);
+            if rng.chance(1, 2) {
+                let run = rng.range(1, 20);
+                let at = rng.below(la - run.min(la - 1));
+                for x in a[at..at + run.min(la - at)].iter_mut() {
+                    *x = 0xff;
+                }
+            }
+            a
+        } else {
+            rng.any_bytes(la)
+        };
         let b = match rng.below(6) {
             0 => {
                 let lb = rng.below(41);
